@@ -93,6 +93,28 @@ func runC09(c *Ctx) {
 	ruleTLSSuccessEffects(c)
 
 	ruleAuthReadFailureEnds(c)
+	R.Rule("R-auth-challenge", "E4 value flow", "the text of every 334 reply is the base64 of the challenge the mechanism has just returned, or empty: nothing carried over from an earlier step (the client's previous line, an earlier challenge) is sent", 1)
+	if f := c.A.Func("(*Conn).handleAuth"); f != nil {
+		n334 := 0
+		for _, site := range s.Find(f, "reply:334") {
+			n334++
+			cc := callCommon(site)
+			vs := varargValues(cc.Args[3])
+			ok := len(vs) == 1
+			var bad []string
+			if ok {
+				for _, l := range leafSources(vs[0]) {
+					if l == `""` || strings.HasPrefix(l, "(*base64.Encoding).EncodeToString(StdEncoding,invoke:Server.Next#0") {
+						continue
+					}
+					ok = false
+					bad = append(bad, l)
+				}
+			}
+			R.Ob(c.siteKey(site, "challenge text is this step's challenge"), c.P.InstrPos(site), ok, fmt.Sprintf("the 334 reply can carry %v", bad))
+		}
+		R.Ob("(*Conn).handleAuth/sends challenges", c.P.Pos(f.Pos()), n334 >= 1, "no 334 reply found")
+	}
 	R.Rule("R-auth-octets", "E4 value flow", "the mechanism receives only the decoded initial response or the decoded line just read; decode errors are tested before use; '*' is tested before decoding; '=' decodes to empty, everything else by base64.StdEncoding", 6)
 	okLeaf := regexp.MustCompile(`^(nil|decodeSASLResponse\(strings\.Fields\(param1\)\[1\]\)#0|decodeSASLResponse\(\(\*Conn\)\.readLine\(param0\)#0\)#0)$`)
 	for _, site := range c.Sites(lNext) {
